@@ -64,3 +64,94 @@ pub(crate) use helpers::*;
 #[allow(unused_imports)]
 pub(crate) use helpers_32::*;
 pub(crate) use sanity::SideMetadataSanity;
+
+/// Verification hooks: drive side metadata without an MMTk instance.
+#[cfg(mmtk_verif)]
+pub mod verif_hooks {
+    use super::*;
+    use crate::util::os::HugePageSupport;
+    use crate::util::Address;
+    use crate::MMAPPER;
+
+    /// Reserve the side metadata address range with no VM specs (idempotent).
+    pub fn initialize() {
+        use std::sync::Once;
+        static INIT: Once = Once::new();
+        INIT.call_once(|| {
+            set_vm_side_metadata_specs(&[]);
+            initialize_side_metadata_base(Address::ZERO, HugePageSupport::No);
+        });
+    }
+
+    /// `(base, reserved bytes)` of the side metadata range.
+    pub fn reserved_range() -> (Address, usize) {
+        (
+            global_side_metadata_base_address(),
+            side_metadata_reserved_bytes(),
+        )
+    }
+
+    /// Map the data range `[start, start + bytes)` (page aligned) and the metadata of `specs` for it.
+    pub fn map(specs: &[SideMetadataSpec], start: Address, bytes: usize) -> Result<(), String> {
+        use crate::util::os::*;
+        MMAPPER
+            .ensure_mapped(
+                start,
+                bytes >> crate::util::constants::LOG_BYTES_IN_PAGE,
+                HugePageSupport::No,
+                MmapProtection::ReadWrite,
+                &MmapAnnotation::Misc { name: "verif-data" },
+            )
+            .map_err(|e| format!("{:?}", e))?;
+        let context = SideMetadataContext {
+            global: specs.iter().filter(|s| s.is_global).cloned().collect(),
+            local: specs.iter().filter(|s| !s.is_global).cloned().collect(),
+        };
+        context
+            .try_map_metadata_space(start, bytes, "verif")
+            .map_err(|e| format!("{:?}", e))
+    }
+
+    /// Metadata byte address and bit shift of the field of `data_addr`.
+    pub fn meta_location(spec: &SideMetadataSpec, data_addr: Address) -> (Address, u8) {
+        (
+            address_to_meta_address(spec, data_addr),
+            meta_byte_lshift(spec, data_addr),
+        )
+    }
+
+    /// Forget everything the sanity checker recorded (and un-poison its lock).
+    pub fn sanity_reset() {
+        super::sanity::verif_reset();
+    }
+
+    /// Size of the metadata address range a spec occupies.
+    pub fn address_range_size(spec: &SideMetadataSpec) -> usize {
+        helpers::metadata_address_range_size(spec)
+    }
+
+    /// Run the plan-creation sanity check on one policy's specs.  `Err` carries the panic message.
+    pub fn sanity_verify(
+        policy: &'static str,
+        global: &[SideMetadataSpec],
+        local: &[SideMetadataSpec],
+    ) -> Result<(), String> {
+        let context = SideMetadataContext {
+            global: global.to_vec(),
+            local: local.to_vec(),
+        };
+        let res = std::panic::catch_unwind(std::panic::AssertUnwindSafe(|| {
+            let mut sanity = SideMetadataSanity::new();
+            sanity.verify_metadata_context(policy, &context);
+        }));
+        res.map_err(|e| {
+            if let Some(s) = e.downcast_ref::<String>() {
+                s.clone()
+            } else if let Some(s) = e.downcast_ref::<&str>() {
+                s.to_string()
+            } else {
+                "panic".to_string()
+            }
+        })
+    }
+}
